@@ -504,7 +504,8 @@ class IoContract(Generic[TermList_t]):
                     outputvars.remove(source_var)
                 assumptions = assumptions.rename_variable(source_var, target_var)
                 guarantees = guarantees.rename_variable(source_var, target_var)
-        return type(self)(assumptions, guarantees, inputvars, outputvars)
+        # renaming is substitution: the constraints are not simplified again (that could drop or reject what the original keeps)
+        return type(self)(assumptions, guarantees, inputvars, outputvars, simplify=False)
 
     def copy(self: IoContract_t) -> IoContract_t:
         """
